@@ -13,7 +13,7 @@ from lerax.algorithm import DQN, PPO, SAC
 from lerax.policy import MLPActorCriticPolicy, MLPQPolicy, MLPSACPolicy
 
 from . import tables as tb
-from .drive_onpolicy import logging_callback
+from .drive_onpolicy import clear_records, logging_callback
 
 
 class Interner:
@@ -145,7 +145,7 @@ def record_learn(kind: str, c: dict, total: int, seed: int) -> dict:
         algo = _algo("PPO", num_envs=c["E"], num_steps=c["S"], num_epochs=1, num_batches=1)
         ls = 0
     jax.effects_barrier()
-    del backend.records[:]
+    clear_records(backend)
     algo.learn(env, policy, total, key=k1, callback=logcb)
     jax.effects_barrier()
     steps = [r[2] for r in backend.records if r[0] == "scalars"]
